@@ -152,9 +152,9 @@ def _history(draw, D0, R0, L):
                 else:
                     objs.append({"pdf": True, "R": 2, "D": Dy})
         if stp is None:
-            stp = {"op": "warm", "i": i, "which": draw(st.sampled_from(["integrate_x", "log_integral_light", "evaluate", "get_density", "integrate_xx"]))}
+            stp = {"op": "warm", "i": i, "which": draw(st.sampled_from(["integrate_x", "log_integral_light", "evaluate", "get_density", "integrate_xx", "sample"]))}
         if stp["op"] == "warm" and "which" not in stp:
-            stp["which"] = draw(st.sampled_from(["integrate_x", "log_integral_light", "evaluate", "get_density", "integrate_xx"]))
+            stp["which"] = draw(st.sampled_from(["integrate_x", "log_integral_light", "evaluate", "get_density", "integrate_xx", "sample"]))
         steps.append(stp)
     return {"D": D0, "R": R0, "init": init, "steps": steps}
 
@@ -266,6 +266,8 @@ _WARM = {
     "evaluate": lambda m: m.evaluate(__import__("jax").numpy.zeros((1, m.D))),
     "get_density": lambda m: m.get_density(),
     "integrate_xx": lambda m: m.integrate("xx'"),
+    # drawing samples is a read-only query too (densities only; measures fall back to a mass query)
+    "sample": lambda m: m.sample(__import__("jax").random.PRNGKey(3), 2) if hasattr(m, "sample") else m.log_integral_light(),
 }
 
 
@@ -509,6 +511,24 @@ def _run(case):
                 break
       except _Stop:
         break
+    # end of history: every pooled density still samples from its CURRENT parameters (mu + chol(Sigma) z)
+    import jax
+    for k, m in enumerate(objs):
+        if not hasattr(m, "sample") or any(f["label"].startswith("after[") for f in fails):
+            continue
+        try:
+            Sg, mu_ = np.asarray(m.Sigma, float), np.asarray(m.mu, float)
+            Lc = np.linalg.cholesky(Sg)
+        except Exception:
+            continue
+        key = jax.random.PRNGKey(11 + k)
+        ok, xs = lib(fails, "final.sample", lambda: np.asarray(m.sample(key, 3)))
+        if ok and xs.shape == (3,) + mu_.shape:
+            z = np.asarray(jax.random.normal(key, xs.shape))
+            want = mu_[None] + np.einsum("rij,nrj->nri", Lc, z)
+            kap = float(np.max(oracle.cond(Sg)))
+            if np.isfinite(kap) and kap < 1e6:
+                check(fails, "final:sample_vs_parameters", xs, want, (1.0 + np.abs(want)) * max(1.0, kap) ** 0.5)
     case["_stats"] = stats
     return fails
 
